@@ -86,35 +86,48 @@ theorem hop_path_is_segments (four : Bool) (h : AsPath.HopPath) (hw : AsPath.WfH
     exact ⟨ss, c4 hs, by simp [typedValue, c2, hs, encSegsW_eq], c5 false⟩
 
 
-/-! ## what `expected` – hence, by `decode_encode`, the decoder – says about an MP
-attribute of an UNSUPPORTED (AFI, SAFI) and about the reserved octet -/
+/-! ## what the decoder reports about an MP attribute of an UNSUPPORTED (AFI, SAFI) and about the
+reserved octet
 
-/-- **unsupported_reach_reported.** When the (first) MP_REACH_NLRI of a content is
-of an (AFI, SAFI) outside the 13 families – next-hop field `nh`, reserved octet
-`rsv`, then `body`, all arbitrary – a faithful decoder reports: `mp_announcements()`
-is an iterator of type `Unsupported(afi, safi)` that yields NOTHING, whatever
-`body` holds; `mp_next_hop()` is an `Err` (there is no rule to read the field by)
-and so is `find_next_hop(k')` for every `k'` but IPv4 unicast (which falls back
-to the conventional NEXT_HOP); `typed_announcements::<T>()` is `Ok(None)` for
-every MP family's `T`; `announcements()` / `announcements_vec()` hold the
-conventional NLRI only; the fourth `afi_safis` slot names the unsupported type;
-and the attribute itself comes out of `path_attributes()` / `to_owned()` as an
-UNIMPLEMENTED attribute with flags as sent, type 14 and the value octets as sent
-– the reserved octet included. With `decode_encode` these are statements about
-`decObserve cfg (encoding ++ trail)` for every well-formed content. -/
-theorem unsupported_reach_reported (cfg : Cfg) (c : TContent) (fl : UInt8) (k : Nat × Nat) (nh : Bytes)
+Each clause is a predicate on an `Observation`; the private lemmas show that `expected cfg c` has it (a reading
+of the definition of `expected`), the public theorems state it of `decObserve cfg (encoding ++ trail)` - the
+DECODER model run on the encoder's octets - through `decode_encode`. -/
+
+/-- what is reported when the (first) MP_REACH_NLRI is of an (AFI, SAFI) outside the 13 families -/
+def ReachUReport (cfg : Cfg) (c : TContent) (fl : UInt8) (k : Nat × Nat) (nh : Bytes) (rsv : UInt8) (body : Bytes)
+    (o : Observation) : Prop :=
+  o.mpAnn = .ok (some (.unsupported k.1 k.2, ([], true))) ∧
+  o.mpNextHop = .err ∧
+  (∀ k', k' ≠ (1, 1) → o.findNextHop k' = .err) ∧
+  (∀ g, (g ≠ .v4u ∨ c.ann = []) → o.typedAnn g = .ok none) ∧
+  o.announcements = .ok o.convAnn ∧
+  o.annVec = .ok (anyNlris .v4u (cfg.rx (1, 1)) c.ann) ∧
+  o.afiSafis = .ok (if c.wd ≠ [] then some (.known .v4u (cfg.rx (1, 1))) else none,
+    if c.ann ≠ [] then some (.known .v4u (cfg.rx (1, 1))) else none,
+    (c.unreachOf cfg).map (·.1), some (.unsupported k.1 k.2)) ∧
+  Outcome.ok (Wire.unimplemented fl.toNat 14 (mpReachValue k nh rsv body)) ∈ o.attrs.1 ∧
+  Outcome.ok (Decoded.unimplemented fl.toNat 14 (mpReachValue k nh rsv body)) ∈ o.owned
+
+/-- what is reported when the (first) MP_UNREACH_NLRI is of an unsupported (AFI, SAFI) -/
+def UnreachUReport (cfg : Cfg) (c : TContent) (fl : UInt8) (k : Nat × Nat) (body : Bytes) (o : Observation) : Prop :=
+  o.mpWd = .ok (some (.unsupported k.1 k.2, ([], true))) ∧
+  (∀ g, (g ≠ .v4u ∨ c.wd = []) → o.typedWd g = .ok none) ∧
+  o.withdrawals = .ok o.convWd ∧
+  o.afiSafis = .ok (if c.wd ≠ [] then some (.known .v4u (cfg.rx (1, 1))) else none,
+    if c.ann ≠ [] then some (.known .v4u (cfg.rx (1, 1))) else none,
+    some (.unsupported k.1 k.2), (c.reachOf cfg).map (·.1)) ∧
+  (body ≠ [] → o.isEor = .ok none) ∧
+  (body = [] → c.wd = [] → c.ann = [] → c.find 14 = none → o.isEor = .ok (some k)) ∧
+  Outcome.ok (Decoded.unimplemented fl.toNat 15 (mpUnreachValue k body)) ∈ o.owned
+
+private theorem mem_of_find {c : TContent} {k : Nat} {a : AttrC} (h : c.find k = some a) : a ∈ c.attrs := by
+  unfold TContent.find at h
+  exact List.mem_of_find?_eq_some h
+
+private theorem expected_unsupported_reach (cfg : Cfg) (c : TContent) (fl : UInt8) (k : Nat × Nat) (nh : Bytes)
     (rsv : UInt8) (body : Bytes) (hf : c.find 14 = some (.reachU fl k nh rsv body)) :
-    (expected cfg c).mpAnn = .ok (some (.unsupported k.1 k.2, ([], true))) ∧
-    (expected cfg c).mpNextHop = .err ∧
-    (∀ k', k' ≠ (1, 1) → (expected cfg c).findNextHop k' = .err) ∧
-    (∀ g, (g ≠ .v4u ∨ c.ann = []) → (expected cfg c).typedAnn g = .ok none) ∧
-    (expected cfg c).announcements = .ok (expected cfg c).convAnn ∧
-    (expected cfg c).annVec = .ok (anyNlris .v4u (cfg.rx (1, 1)) c.ann) ∧
-    (expected cfg c).afiSafis = .ok (if c.wd ≠ [] then some (.known .v4u (cfg.rx (1, 1))) else none,
-      if c.ann ≠ [] then some (.known .v4u (cfg.rx (1, 1))) else none,
-      (c.unreachOf cfg).map (·.1), some (.unsupported k.1 k.2)) ∧
-    (AttrC.reachU fl k nh rsv body).wire cfg = .unimplemented fl.toNat 14 (mpReachValue k nh rsv body) ∧
-    (AttrC.reachU fl k nh rsv body).owned cfg = .unimplemented fl.toNat 14 (mpReachValue k nh rsv body) := by
+    ReachUReport cfg c fl k nh rsv body (expected cfg c) := by
+  have hm := mem_of_find hf
   refine ⟨?_, ?_, ?_, ?_, ?_, ?_, ?_, ?_, ?_⟩
   · simp [expected, TContent.reachOf, hf, okItems]
   · simp [expected, TContent.reachNh, hf]
@@ -130,27 +143,19 @@ theorem unsupported_reach_reported (cfg : Cfg) (c : TContent) (fl : UInt8) (k : 
   · simp [expected, TContent.reachOf, hf, okItems]
   · simp [expected, TContent.reachOf, hf]
   · simp only [expected, TContent.reachOf, hf, Option.map_some]
-  · simp [AttrC.wire, AttrC.ownedT, AttrC.valueD, AttrC.value, AttrC.fl, AttrC.code]
-  · simp [AttrC.owned, AttrC.ownedT, AttrC.valueD, AttrC.value, AttrC.fl, AttrC.code]
+  · have : (AttrC.reachU fl k nh rsv body).wire cfg = .unimplemented fl.toNat 14 (mpReachValue k nh rsv body) := by
+      simp [AttrC.wire, AttrC.ownedT, AttrC.valueD, AttrC.value, AttrC.fl, AttrC.code]
+    simp only [expected, okItems, List.map_map, List.mem_map]
+    exact ⟨_, hm, by simp [this]⟩
+  · have : (AttrC.reachU fl k nh rsv body).owned cfg = .unimplemented fl.toNat 14 (mpReachValue k nh rsv body) := by
+      simp [AttrC.owned, AttrC.ownedT, AttrC.valueD, AttrC.value, AttrC.fl, AttrC.code]
+    simp only [expected, List.mem_map]
+    exact ⟨_, hm, by simp [this]⟩
 
-/-- **unsupported_unreach_reported.** The same for MP_UNREACH_NLRI of an unsupported
-(AFI, SAFI) holding the octets `body`: `mp_withdrawals()` is an iterator of type
-`Unsupported(afi, safi)` without items; `typed_withdrawals::<T>()` is `Ok(None)`;
-`withdrawals()` holds the conventional NLRI only; and `is_eor()` – judged on the
-OCTETS, not on the iterator (F22b) – names exactly this (AFI, SAFI) when `body`
-is empty and the message carries nothing else that holds NLRI (no conventional
-section, no MP_REACH_NLRI), and is `None` as soon as `body` has one octet. -/
-theorem unsupported_unreach_reported (cfg : Cfg) (c : TContent) (fl : UInt8) (k : Nat × Nat) (body : Bytes)
+private theorem expected_unsupported_unreach (cfg : Cfg) (c : TContent) (fl : UInt8) (k : Nat × Nat) (body : Bytes)
     (hf : c.find 15 = some (.unreachU fl k body)) :
-    (expected cfg c).mpWd = .ok (some (.unsupported k.1 k.2, ([], true))) ∧
-    (∀ g, (g ≠ .v4u ∨ c.wd = []) → (expected cfg c).typedWd g = .ok none) ∧
-    (expected cfg c).withdrawals = .ok (expected cfg c).convWd ∧
-    (expected cfg c).afiSafis = .ok (if c.wd ≠ [] then some (.known .v4u (cfg.rx (1, 1))) else none,
-      if c.ann ≠ [] then some (.known .v4u (cfg.rx (1, 1))) else none,
-      some (.unsupported k.1 k.2), (c.reachOf cfg).map (·.1)) ∧
-    (body ≠ [] → (expected cfg c).isEor = .ok none) ∧
-    (body = [] → c.wd = [] → c.ann = [] → c.find 14 = none → (expected cfg c).isEor = .ok (some k)) ∧
-    (AttrC.unreachU fl k body).owned cfg = .unimplemented fl.toNat 15 (mpUnreachValue k body) := by
+    UnreachUReport cfg c fl k body (expected cfg c) := by
+  have hm := mem_of_find hf
   have hne : c.attrs ≠ [] := by
     intro h; simp [TContent.find, h] at hf
   refine ⟨?_, ?_, ?_, ?_, ?_, ?_, ?_⟩
@@ -168,25 +173,194 @@ theorem unsupported_unreach_reported (cfg : Cfg) (c : TContent) (fl : UInt8) (k 
     simp [expected, hne, TContent.unreachOf, TContent.unreachEmpty, hf, hb]
   · intro hb hw ha h14
     simp [expected, hne, TContent.unreachOf, TContent.unreachEmpty, hf, hb, hw, ha, h14, NlriTy.afiSafi]
-  · simp [AttrC.owned, AttrC.ownedT, AttrC.valueD, AttrC.value, AttrC.fl, AttrC.code]
+  · have : (AttrC.unreachU fl k body).owned cfg = .unimplemented fl.toNat 15 (mpUnreachValue k body) := by
+      simp [AttrC.owned, AttrC.ownedT, AttrC.valueD, AttrC.value, AttrC.fl, AttrC.code]
+    simp only [expected, List.mem_map]
+    exact ⟨_, hm, by simp [this]⟩
 
-/-- **reserved_octet_ignored.** The reserved octet of an MP_REACH_NLRI of one of
-the 13 families (RFC 4760 3: "SHOULD be ignored upon receipt") changes nothing
-any NLRI / next-hop accessor reports – the fields below do not mention `rsv` –;
-it is visible in the attribute's value octets only (`wire` / `owned` hold
-`mpReachValue (famCode f) nh rsv _`). -/
-theorem reserved_octet_ignored (cfg : Cfg) (c : TContent) (fl : UInt8) (f : Fam) (nh : Bytes) (rsv : UInt8)
-    (nlri : List (Nat × f.Val)) (hf : c.find 14 = some (.reach fl f nh rsv nlri)) :
-    (expected cfg c).mpAnn =
-      .ok (some (.known f (cfg.rx (famCode f)), okItems (anyNlris f (cfg.rx (famCode f)) nlri))) ∧
-    (expected cfg c).mpNextHop = (match nhSpec f nh with | some x => .ok (some x) | none => .err) ∧
-    (∀ x, nhSpec f nh = some x → (expected cfg c).findNextHop (famCode f) = .ok x) := by
-  refine ⟨?_, ?_, ?_⟩
+/-- **unsupported_reach_reported** (about the DECODER: `decObserve` on the encoder's octets, any trailing octets).
+When the (first) MP_REACH_NLRI of a well-formed content is of an (AFI, SAFI) outside the 13 families – next-hop
+field `nh`, reserved octet `rsv`, then `body`, all arbitrary – the decoder model accepts the encoding and reports:
+`mp_announcements()` is an iterator of type `Unsupported(afi, safi)` that yields NOTHING, whatever `body` holds;
+`mp_next_hop()` is an `Err` and so is `find_next_hop(k')` for every `k'` but IPv4 unicast;
+`typed_announcements::<T>()` is `Ok(None)` for every MP family's `T`; `announcements()` / `announcements_vec()`
+hold the conventional NLRI only; the fourth `afi_safis` slot names the unsupported type; and the attribute itself is
+among `path_attributes()` / `to_owned()` as an UNIMPLEMENTED attribute with flags as sent, type 14 and the value
+octets as sent – the reserved octet included.  NOTE on the property: C01 speaks of SUPPORTED families; of these
+clauses only "accepted", "no NLRI item", the value octets and `is_eor` are demanded by the property (and by the
+harness oracle) – `Err` of `mp_next_hop`, the iterator type and the `afi_safis` slot are how the code behaves today,
+proved of the model and held against the code by the correspondence run only. -/
+theorem unsupported_reach_reported (cfg : Cfg) (c : TContent) (hw : WfContent cfg c) (fl : UInt8) (k : Nat × Nat)
+    (nh : Bytes) (rsv : UInt8) (body : Bytes) (hf : c.find 14 = some (.reachU fl k nh rsv body)) :
+    ∃ bs, encUpdateT cfg c = .ok bs ∧ (bs.length < 65536 → ∀ trail, ∃ o,
+      decObserve cfg (bs ++ trail) = .ok o ∧ ReachUReport cfg c fl k nh rsv body o) := by
+  obtain ⟨bs, hbs, hdec⟩ := decode_encode cfg c hw
+  exact ⟨bs, hbs, fun hl trail => ⟨_, hdec hl trail, expected_unsupported_reach cfg c fl k nh rsv body hf⟩⟩
+
+/-- **unsupported_unreach_reported** (about the DECODER, as above). The same for MP_UNREACH_NLRI of an unsupported
+(AFI, SAFI) holding the octets `body`: `mp_withdrawals()` is an iterator of type `Unsupported(afi, safi)` without
+items; `typed_withdrawals::<T>()` is `Ok(None)`; `withdrawals()` holds the conventional NLRI only; and `is_eor()` –
+judged on the OCTETS, not on the iterator (F22b) – names exactly this (AFI, SAFI) when `body` is empty and the
+message carries nothing else that holds NLRI (no conventional section, no MP_REACH_NLRI), and is `None` as soon as
+`body` has one octet. -/
+theorem unsupported_unreach_reported (cfg : Cfg) (c : TContent) (hw : WfContent cfg c) (fl : UInt8) (k : Nat × Nat)
+    (body : Bytes) (hf : c.find 15 = some (.unreachU fl k body)) :
+    ∃ bs, encUpdateT cfg c = .ok bs ∧ (bs.length < 65536 → ∀ trail, ∃ o,
+      decObserve cfg (bs ++ trail) = .ok o ∧ UnreachUReport cfg c fl k body o) := by
+  obtain ⟨bs, hbs, hdec⟩ := decode_encode cfg c hw
+  exact ⟨bs, hbs, fun hl trail => ⟨_, hdec hl trail, expected_unsupported_unreach cfg c fl k body hf⟩⟩
+
+/-- the same attribute with the reserved octet of an MP_REACH_NLRI (of a supported family or not) replaced -/
+def setRsvA (r : UInt8) : AttrC → AttrC
+  | .reach fl f nh _ nlri => .reach fl f nh r nlri
+  | .reachU fl k nh _ body => .reachU fl k nh r body
+  | a => a
+
+/-- the same content with every reserved octet replaced by `r` -/
+def setRsv (r : UInt8) (c : TContent) : TContent := { c with attrs := c.attrs.map (setRsvA r) }
+
+/-- two observations agree in EVERY field but the two that present the attributes' value octets (`attrs` =
+`path_attributes()`, `owned` = `to_owned()` of each) -/
+def SameButAttrOctets (o o' : Observation) : Prop :=
+  { o' with attrs := o.attrs, owned := o.owned } = o
+
+private theorem setRsvA_code (r : UInt8) (a : AttrC) : (setRsvA r a).code = a.code := by
+  cases a <;> rfl
+
+private theorem setRsvA_fl (r : UInt8) (a : AttrC) : (setRsvA r a).fl = a.fl := by
+  cases a <;> rfl
+
+private theorem setRsvA_ownedT (cfg : Cfg) (r : UInt8) (a : AttrC) : (setRsvA r a).ownedT cfg = a.ownedT cfg := by
+  cases a <;> rfl
+
+private theorem setRsvA_hopsT (cfg : Cfg) (r : UInt8) (a : AttrC) : (setRsvA r a).hopsT cfg = a.hopsT cfg := by
+  simp [AttrC.hopsT, setRsvA_ownedT]
+
+private theorem setRsvA_valueLen (cfg : Cfg) (r : UInt8) (a : AttrC) :
+    ((setRsvA r a).valueD cfg).length = (a.valueD cfg).length := by
+  cases a <;> simp [setRsvA, AttrC.valueD, AttrC.value]
+  · rename_i fl f nh rsv nlri
+    cases encNlris f (cfg.rx (famCode f)) nlri <;> simp [mpReachValue]
+  · simp [mpReachValue]
+
+/-- an attribute that yields hops (an AS path) is not an MP attribute: replacing the reserved octet leaves it alone -/
+private theorem setRsvA_of_hops (cfg : Cfg) (r : UInt8) (a : AttrC) (h : (a.hopsT cfg).isSome) : setRsvA r a = a := by
+  cases a <;> simp_all [setRsvA, AttrC.hopsT, AttrC.ownedT]
+
+private theorem find_setRsv (r : UInt8) (c : TContent) (k : Nat) :
+    (setRsv r c).find k = (c.find k).map (setRsvA r) := by
+  simp only [TContent.find, setRsv, List.find?_map]
+  have : ((fun a : AttrC => a.code == k) ∘ setRsvA r) = (fun a => a.code == k) := by
+    funext a; simp [setRsvA_code]
+  rw [this]
+
+private theorem typedOf_setRsv (r : UInt8) (c : TContent) (k : Nat) : (setRsv r c).typedOf k = c.typedOf k := by
+  simp only [TContent.typedOf, find_setRsv]
+  cases h : c.find k with
+  | none => rfl
+  | some a => cases a <;> rfl
+
+private theorem recsOf_setRsv (r : UInt8) (c : TContent) (k : Nat) : (setRsv r c).recsOf k = c.recsOf k := by
+  simp [TContent.recsOf, typedOf_setRsv]
+
+private theorem reachOf_setRsv (cfg : Cfg) (r : UInt8) (c : TContent) : (setRsv r c).reachOf cfg = c.reachOf cfg := by
+  simp only [TContent.reachOf, find_setRsv]
+  cases h : c.find 14 with
+  | none => rfl
+  | some a => cases a <;> rfl
+
+private theorem unreachOf_setRsv (cfg : Cfg) (r : UInt8) (c : TContent) :
+    (setRsv r c).unreachOf cfg = c.unreachOf cfg := by
+  simp only [TContent.unreachOf, find_setRsv]
+  cases h : c.find 15 with
+  | none => rfl
+  | some a => cases a <;> rfl
+
+private theorem reachNh_setRsv (r : UInt8) (c : TContent) : (setRsv r c).reachNh = c.reachNh := by
+  simp only [TContent.reachNh, find_setRsv]
+  cases h : c.find 14 with
+  | none => rfl
+  | some a => cases a <;> rfl
+
+private theorem unreachEmpty_setRsv (r : UInt8) (c : TContent) : (setRsv r c).unreachEmpty = c.unreachEmpty := by
+  simp only [TContent.unreachEmpty, find_setRsv]
+  cases h : c.find 15 with
+  | none => rfl
+  | some a => cases a <;> rfl
+
+private theorem pathOf_setRsv (cfg : Cfg) (r : UInt8) (c : TContent) (k : Nat) :
+    ((setRsv r c).find k).bind (fun a => (a.hopsT cfg).map fun h => (a.valueD cfg, h)) =
+      (c.find k).bind (fun a => (a.hopsT cfg).map fun h => (a.valueD cfg, h)) := by
+  rw [find_setRsv]
+  cases h : c.find k with
+  | none => rfl
+  | some a =>
+    simp only [Option.map_some, Option.bind_some]
+    cases hh : a.hopsT cfg with
+    | none => simp [setRsvA_hopsT, hh]
+    | some p => rw [setRsvA_of_hops cfg r a (by simp [hh])]; simp [hh]
+
+private theorem encRaws_length_setRsv (cfg : Cfg) (r : UInt8) (l : List AttrC) :
+    (encRaws ((l.map (setRsvA r)).map (AttrC.rawOf cfg))).length = (encRaws (l.map (AttrC.rawOf cfg))).length := by
+  induction l with
+  | nil => rfl
+  | cons a t ih =>
+    have h1 : (encRaw ((setRsvA r a).rawOf cfg)).length = (encRaw (a.rawOf cfg)).length := by
+      have := setRsvA_valueLen cfg r a
+      by_cases he : extBit a.fl = true <;> simp [encRaw, AttrC.rawOf, setRsvA_fl, he, this]
+    simp only [encRaws, List.map_cons, List.flatten_cons, List.length_append] at ih ⊢
+    omega
+
+/-- `expected` does not look at the reserved octet outside the attributes' value octets -/
+private theorem expected_reserved_octet (cfg : Cfg) (c : TContent) (r : UInt8) :
+    SameButAttrOctets (expected cfg c) (expected cfg (setRsv r c)) := by
+  have hnil : (setRsv r c).attrs = [] ↔ c.attrs = [] := by simp [setRsv]
+  have hwd : (setRsv r c).wd = c.wd := rfl
+  have hann : (setRsv r c).ann = c.ann := rfl
+  have hlen := encRaws_length_setRsv cfg r c.attrs
+  have hsome : ((setRsv r c).find 6).isSome = (c.find 6).isSome := by simp [find_setRsv]
+  have h14 : (setRsv r c).find 14 = none ↔ c.find 14 = none := by simp [find_setRsv]
+  have hattrs : (setRsv r c).attrs = c.attrs.map (setRsvA r) := rfl
+  unfold SameButAttrOctets expected
+  simp only [hwd, hann, reachOf_setRsv, unreachOf_setRsv, reachNh_setRsv, unreachEmpty_setRsv, typedOf_setRsv,
+    recsOf_setRsv, pathOf_setRsv, hsome, h14, hattrs, hlen, List.map_eq_nil_iff]
+
+/-- **reserved_octet_ignored** (about the DECODER). RFC 4760 3: the reserved octet of MP_REACH_NLRI "SHOULD be ignored
+upon receipt".  Take a well-formed content `c` and the content `setRsv r c` that differs from it ONLY in the
+reserved octet of its MP_REACH_NLRI attributes (of one of the 13 families or of an unsupported pair; `r`
+arbitrary).  The decoder model, run on the two encodings (each followed by any octets), reports observations that
+agree in EVERY field - lengths, conventional and MP NLRI with path ids, the chained / `_vec` / typed accessors,
+`afi_safis`, `is_eor`, origin, AS paths, conventional and MP next hop, `find_next_hop` for every pair, MED ..
+all community iterators - except the two that present the attributes' value octets themselves (`attrs`, `owned`),
+where the octet is visible as sent (`unsupported_reach_reported` / `decode_encode`: value = `mpReachValue .. rsv ..`).
+(`setRsv r c` is well-formed whenever `c` is and its encoding has the same length - both observations report the
+same `length` -; the two facts are taken as hypotheses here, they are not proved separately.) -/
+theorem reserved_octet_ignored (cfg : Cfg) (c : TContent) (r : UInt8) (hw : WfContent cfg c)
+    (hw' : WfContent cfg (setRsv r c)) :
+    ∃ bs bs', encUpdateT cfg c = .ok bs ∧ encUpdateT cfg (setRsv r c) = .ok bs' ∧
+      (bs.length < 65536 → bs'.length < 65536 → ∀ trail trail', ∃ o o',
+        decObserve cfg (bs ++ trail) = .ok o ∧ decObserve cfg (bs' ++ trail') = .ok o' ∧ SameButAttrOctets o o') := by
+  obtain ⟨bs, hbs, hdec⟩ := decode_encode cfg c hw
+  obtain ⟨bs', hbs', hdec'⟩ := decode_encode cfg (setRsv r c) hw'
+  exact ⟨bs, bs', hbs, hbs', fun h h' trail trail' =>
+    ⟨_, _, hdec h trail, hdec' h' trail', expected_reserved_octet cfg c r⟩⟩
+
+/-- the per-field reading for one of the 13 families: the NLRI / next-hop accessors of a content whose first
+MP_REACH_NLRI is `.reach fl f nh rsv nlri` do not mention `rsv` -/
+theorem reserved_octet_fields (cfg : Cfg) (c : TContent) (hw : WfContent cfg c) (fl : UInt8) (f : Fam) (nh : Bytes)
+    (rsv : UInt8) (nlri : List (Nat × f.Val)) (hf : c.find 14 = some (.reach fl f nh rsv nlri)) :
+    ∃ bs, encUpdateT cfg c = .ok bs ∧ (bs.length < 65536 → ∀ trail, ∃ o, decObserve cfg (bs ++ trail) = .ok o ∧
+      o.mpAnn = .ok (some (.known f (cfg.rx (famCode f)), okItems (anyNlris f (cfg.rx (famCode f)) nlri))) ∧
+      o.mpNextHop = (match nhSpec f nh with | some x => .ok (some x) | none => .err) ∧
+      (∀ x, nhSpec f nh = some x → o.findNextHop (famCode f) = .ok x)) := by
+  obtain ⟨bs, hbs, hdec⟩ := decode_encode cfg c hw
+  refine ⟨bs, hbs, fun hl trail => ⟨_, hdec hl trail, ?_, ?_, ?_⟩⟩
   · simp [expected, TContent.reachOf, hf]
   · simp only [expected, TContent.reachNh, hf, nhOf]
     cases nhSpec f nh <;> rfl
   · intro x hx
     by_cases h11 : famCode f = (1, 1) <;> simp [expected, findNextHopSpec, TContent.reachNh, hf, nhOf, hx, h11]
+
 
 /-! ## the parts, on the level of raw attribute values -/
 
@@ -485,6 +659,26 @@ example : WfContent exCfgU exContentU := by
     · exact ⟨⟨by decide, by decide, by decide⟩, by decide⟩
   · intro a ha b hb hc h
     simp only [exContentU, List.mem_cons, List.not_mem_nil, or_false] at ha hb
+    rcases ha with rfl | rfl | rfl <;> rcases hb with rfl | rfl | rfl <;>
+      first | rfl | (exfalso; revert hc h; decide)
+
+/-- the hypotheses of `unsupported_reach_reported` / `unsupported_unreach_reported` / `reserved_octet_ignored` hold
+of `exContentU`: its first attribute 14 / 15 are the unsupported forms, and the content with the reserved octet
+0x7f replaced by 0 is well-formed too (and a different content) -/
+example : exContentU.find 14 = some (.reachU 0x80 (1, 5) [1, 2, 3] 0x7f [0xde, 0xad]) := by rfl
+example : exContentU.find 15 = some (.unreachU 0x90 (1, 5) [0x18]) := by rfl
+example : (setRsv 0 exContentU).attrs =
+    [.typed 0x40 (.origin 2), .reachU 0x80 (1, 5) [1, 2, 3] 0 [0xde, 0xad], .unreachU 0x90 (1, 5) [0x18]] := by rfl
+example : WfContent exCfgU (setRsv 0 exContentU) := by
+  refine wfU _ rfl (by decide) ?_ ?_
+  · intro a ha
+    simp only [setRsv, setRsvA, exContentU, List.map_cons, List.map_nil, List.mem_cons, List.not_mem_nil, or_false] at ha
+    rcases ha with rfl | rfl | rfl
+    · exact ⟨⟨by decide, by decide⟩, by decide⟩
+    · exact ⟨⟨by decide, by decide, by decide, by decide⟩, by decide⟩
+    · exact ⟨⟨by decide, by decide, by decide⟩, by decide⟩
+  · intro a ha b hb hc h
+    simp only [setRsv, setRsvA, exContentU, List.map_cons, List.map_nil, List.mem_cons, List.not_mem_nil, or_false] at ha hb
     rcases ha with rfl | rfl | rfl <;> rcases hb with rfl | rfl | rfl <;>
       first | rfl | (exfalso; revert hc h; decide)
 
